@@ -111,9 +111,9 @@ func checkTLSRecords(b []byte) (int, string) {
 }
 
 type c11Case struct {
-	Cfg      string // nil | empty | certs
-	Behave   string
-	Hist     []c11Letter
+	Cfg    string // nil | empty | certs
+	Behave string
+	Hist   []c11Letter
 }
 
 func (c c11Case) String() string {
@@ -373,13 +373,13 @@ func c11Run(c c11Case) explore.Result {
 
 func init() {
 	explore.Register(&explore.Check{
-		ID:        "C11",
-		Level:     "exploration",
-		Technique: "exhaustive enumeration of (server TLS configuration x client behaviour around the SSLRequest x session history) with a real crypto/tls client over a tapped in-memory transport; raw bytes judged structurally (TLS record framing), decrypted stream differentially against the plaintext equivalent",
-		Rule:      "TLS configuration {none, empty config, empty non-nil certificate slice (with / without capacity), with certificate} x client behaviour {SSLRequest then handshake, SSLRequest with startup+Query stuffed into the same segment, SSLRequest with surplus body, plaintext instead of a handshake, second SSLRequest, CancelRequest after the negotiation} x all session histories of length <= 2 over {Query ok, Query error, Parse+Bind+Execute+Sync, COPY-in, oversized, Terminate}; non-trivial = cases that negotiate (refused or upgraded)",
-		Assumptions: []string{"cryptographic strength is not judged: only record framing on the wire and the decrypted plaintext", "behaviour of a repeated SSLRequest is only required to leak nothing and to run no callback", "crypto/tls client and server goroutines run freely; the verdict depends on byte structure and transcripts only"},
-		Enumerate:   c11Enumerate,
-		Bounds:      func(tier string) map[string]any { return map[string]any{"session_depth": c11Depth(tier)} },
+		ID:               "C11",
+		Level:            "exploration",
+		Technique:        "exhaustive enumeration of (server TLS configuration x client behaviour around the SSLRequest x session history) with a real crypto/tls client over a tapped in-memory transport; raw bytes judged structurally (TLS record framing), decrypted stream differentially against the plaintext equivalent",
+		Rule:             "TLS configuration {none, empty config, empty non-nil certificate slice (with / without capacity), with certificate} x client behaviour {SSLRequest then handshake, SSLRequest with startup+Query stuffed into the same segment, SSLRequest with surplus body, plaintext instead of a handshake, second SSLRequest, CancelRequest after the negotiation} x all session histories of length <= 2 over {Query ok, Query error, Parse+Bind+Execute+Sync, COPY-in, oversized, Terminate}; non-trivial = cases that negotiate (refused or upgraded)",
+		Assumptions:      []string{"cryptographic strength is not judged: only record framing on the wire and the decrypted plaintext", "behaviour of a repeated SSLRequest is only required to leak nothing and to run no callback", "crypto/tls client and server goroutines run freely; the verdict depends on byte structure and transcripts only"},
+		Enumerate:        c11Enumerate,
+		Bounds:           func(tier string) map[string]any { return map[string]any{"session_depth": c11Depth(tier)} },
 		RequiredOutcomes: []string{"upgraded", "refused", "plaintext-instead-of-handshake", "cancel-inside-tls"},
 	})
 }
